@@ -63,6 +63,8 @@ pub enum StderrSpec {
     DevFull,
     /// a pipe whose reader is already gone
     ClosedPipe,
+    /// the same open file description as a StdoutSpec::File stdout ("> log 2>&1")
+    SameAsStdoutFile,
 }
 
 #[derive(Clone, Debug)]
@@ -175,6 +177,12 @@ pub fn run_xt_limit(bin: Bin, args: &[OsString], cwd: &Path, stdin: StdinSpec, s
 
 #[allow(clippy::too_many_arguments)]
 thread_local! {
+    /// When set, the child starts with SIGPIPE blocked in its signal mask (as under
+    /// some service managers and language runtimes).
+    pub static BLOCK_SIGPIPE: std::cell::Cell<bool> = std::cell::Cell::new(false);
+}
+
+thread_local! {
     /// When set, the child's argv[0] (any bytes; the program run stays the same).
     pub static ARGV0_OVERRIDE: std::cell::RefCell<Option<Vec<u8>>> = std::cell::RefCell::new(None);
 }
@@ -196,6 +204,9 @@ pub fn run_xt_full(bin: Bin, args: &[OsString], cwd: &Path, stdin: StdinSpec, st
         StderrSpec::DevFull => {
             cmd.stderr(std::fs::OpenOptions::new().write(true).open("/dev/full").expect("open /dev/full"));
         }
+        StderrSpec::SameAsStdoutFile => {
+            cmd.stderr(Stdio::null()); // replaced below, once the stdout file exists
+        }
         StderrSpec::ClosedPipe => {
             let (r, w) = make_pipe(None);
             drop(r);
@@ -204,10 +215,17 @@ pub fn run_xt_full(bin: Bin, args: &[OsString], cwd: &Path, stdin: StdinSpec, st
     }
     cmd.env_clear();
     // never leave an xt process behind when the harness itself is killed
+    let block_sigpipe = BLOCK_SIGPIPE.with(|b| b.get());
     unsafe {
         use std::os::unix::process::CommandExt;
-        cmd.pre_exec(|| {
+        cmd.pre_exec(move || {
             libc::prctl(libc::PR_SET_PDEATHSIG, libc::SIGKILL);
+            if block_sigpipe {
+                let mut set: libc::sigset_t = std::mem::zeroed();
+                libc::sigemptyset(&mut set);
+                libc::sigaddset(&mut set, libc::SIGPIPE);
+                libc::sigprocmask(libc::SIG_BLOCK, &set, std::ptr::null_mut());
+            }
             Ok(())
         });
     }
@@ -238,7 +256,11 @@ pub fn run_xt_full(bin: Bin, args: &[OsString], cwd: &Path, stdin: StdinSpec, st
             cmd.stdout(Stdio::piped());
         }
         StdoutSpec::File => {
-            cmd.stdout(File::create(&out_file_path).expect("create stdout file"));
+            let f = File::create(&out_file_path).expect("create stdout file");
+            if stderr == StderrSpec::SameAsStdoutFile {
+                cmd.stderr(f.try_clone().expect("dup stdout file"));
+            }
+            cmd.stdout(f);
         }
         StdoutSpec::DevFull => {
             cmd.stdout(std::fs::OpenOptions::new().write(true).open("/dev/full").expect("open /dev/full"));
